@@ -10,6 +10,7 @@ for d in refactors/*/; do
     for p in "$@"; do
       QV_EVIDENCE_DIR=/tmp/qv-evidence-scratch/rfs-$id-$p python3 run.py check $p --root "$S" > /tmp/rfs_${id}_$p.out 2>&1; rc=$?
       if [ $rc = 2 ] && grep -qx "$p analysis-broken" /verif/$d/expect.txt 2>/dev/null; then echo "$id $p rc=2 (documented analysis-broken, no verdict)"; continue; fi
+      if [ $rc = 1 ] && grep -qx "$p false-alarm" /verif/$d/expect.txt 2>/dev/null; then echo "$id $p rc=1 (documented FALSE ALARM, not corrected: see DESIGN.md section 8)"; continue; fi
       [ $rc = 0 ] || { echo "$id $p rc=$rc"; grep -E "^DIAG|ANALYSIS-BROKEN" /tmp/rfs_${id}_$p.out | cut -c1-220 | head -3; }
     done
   else echo "$id apply-fail"; fi
